@@ -9,9 +9,9 @@ META = {
             'skeletons with symbolic content holes (attribute value, comment, CDATA, PI, script body) - ground truth shifts '
             'linearly with the hole length.',
     'bounds': {
-        'quick': 'all well-formed event sequences of <=5 events (HTML mode) / <=4 (XML mode), every integer position; content holes of '
-                 '<=2 characters in 6 skeletons',
-        'thorough': '<=6 events HTML, <=5 XML; holes <=3 characters',
+        'quick': 'all well-formed event sequences of <=5 events (HTML mode) / <=4 (XML mode), every integer position; every ordered forest of 6 elements (132 documents, '
+                 'both modes); content holes of <=2 characters in 6 skeletons',
+        'thorough': '<=6 events HTML, <=5 XML; forests of 7 elements (429 documents, 2 rotations); holes <=3 characters',
     },
     'outside_claim': ['malformed documents (C16)', 'symbolic tag names', 'balanced_inward at positions that coincide with a tag '
                       'boundary (the property does not say which of two touching elements is "at" the position)',
@@ -91,12 +91,34 @@ def mk_events(K, xml, first, second, rot):
         for p in (1, 6, 12):
             wit.append(dict(k1=ks[1], k2=ks[2], k3=ks[3], k4=ks[4], k5=ks[5], pos=p))
     nested = first in (G.OPEN, G.OPENA) and second in (G.OPEN, G.OPENA) and K >= 4
-    return {'fn': harness(False), 'twin': harness(True) if nested else None, 'witnesses': wit,
+    return {'fn': harness(False), 'twin': harness(True) if nested else None, 'witnesses': wit, 'check': check,
             'assumptions': ['document = well-formed sequence of <=%d events, events 0,1 are kinds %d,%d, the others solver-chosen from '
                             '{open, open+attributes, close, void, self-closed, inert (comment/CDATA/PI/text by slot), special '
                             '(script/style by slot), end}; variant rotation %d; xml=%s; pos any integer' % (K, first, second, rot, xml)],
             'functions': ['html_matcher.match', 'balanced_outward', 'balanced_inward', 'get_attributes', 'scan.scan',
                           'attributes.attributes', 'alloc_tag/release_tag (pooling)', 'is_self_close']}
+
+
+def mk_forest(n, part, nparts, rot, xml):
+    """documents that are deeper and wider than K events reach: every ordered forest of n elements"""
+    from vf.gen import forest
+    from vf.util import pick_int
+    check = mk_events(5, xml, G.OPEN, G.OPEN, rot)['check']
+    words = [w for i, w in enumerate(forest.dyck(n)) if i % nparts == part]
+    docs = [G.build(forest.html_kinds(w, rot, xml, G), rot, xml) for w in words]
+
+    def harness(wrong):
+        def h(i: int, pos: int):
+            if not (0 <= i < len(docs)):
+                return 'skip'
+            doc, elems = docs[pick_int(i, 0, len(docs) - 1)]
+            return check(doc, elems, pos, wrong)
+        return h
+    return {'fn': harness(False), 'twin': harness(True), 'witnesses': [dict(i=0, pos=1), dict(i=len(docs) - 1, pos=7)],
+            'assumptions': ['document = ordered forest %d mod %d of all %d forests with %d elements (solver-chosen index); leaves rotate through '
+                            'empty pair / void / self-closed, every third inner element carries attributes (rotation %d); xml=%s; pos any integer' % (
+                                part, nparts, len(forest.dyck(n)), n, rot, xml)],
+            'functions': ['html_matcher.match', 'balanced_outward', 'balanced_inward', 'alloc_tag/release_tag (pooling)', 'scan.scan']}
 
 
 # ------------------------------------------------------------------ content holes
@@ -204,6 +226,14 @@ def jobs(tier):
                                    'vf.props.c09:mk_events', dict(K=K, xml=xml, first=first, second=second, rot=rot), shape='H',
                                    bound='<=%d events' % K, budget=1500 if q else 6000,
                                    weight=1000 if first in (G.OPEN, G.OPENA) else 200))
+    n = 6 if q else 7
+    nparts = 6 if q else 16
+    for xml in (False, True):
+        for part in range(nparts):
+            for rot in ((0,) if q else (0, 1)):
+                out.append(Job('C09-c/forest/%s/n=%d,rot=%d,part%d' % ('xml' if xml else 'html', n, rot, part), 'vf.props.c09:mk_forest',
+                               dict(n=n, part=part, nparts=nparts, rot=rot, xml=xml), shape='H', bound='forests of %d elements' % n,
+                               budget=1500 if q else 6000, weight=900))
     for kind in HOLES:
         out.append(Job('C09-b/hole/%s' % kind, 'vf.props.c09:mk_hole', dict(kind=kind, n=2 if q else 3), shape='H',
                        bound='hole <=%d chars' % (2 if q else 3), budget=1500 if q else 6000, weight=800))
